@@ -11,6 +11,8 @@ import (
 
 	"github.com/Eyevinn/mp4ff/bits"
 	"github.com/Eyevinn/mp4ff/mp4"
+
+	app "github.com/Dash-Industry-Forum/livesim2/cmd/livesim2/app"
 )
 
 var ttmlTsRe = regexp.MustCompile(`(\d\d+):(\d\d):(\d\d)(\.\d\d\d)?`)
@@ -97,5 +99,87 @@ func c01Ttml(c *Ctx) {
 				}
 			}
 		}
+	}
+}
+
+// ---- ops tying Model/Ttml.lean: `ttml <doc> <shiftMS>` (spaces written as _), `tshift <timeShift> <timescale>` ----
+
+func execTtml(a []string) string {
+	if len(a) != 2 {
+		return "bad-op"
+	}
+	sh, err := strconv.ParseUint(a[1], 10, 63)
+	if err != nil {
+		return "bad-op"
+	}
+	out, err := app.VerifShiftTTML(a[0], sh)
+	if err != nil {
+		return "err"
+	}
+	return "ok " + out
+}
+
+func execTshift(a []string) string {
+	if len(a) != 2 {
+		return "bad-op"
+	}
+	ts, e1 := strconv.ParseUint(a[0], 10, 63)
+	T, e2 := strconv.ParseUint(a[1], 10, 32)
+	if e1 != nil || e2 != nil || T == 0 {
+		return "bad-op"
+	}
+	return fmt.Sprintf("ms=%d", app.VerifStppShiftMS(ts, uint32(T)))
+}
+
+func init() {
+	opExec["ttml"] = execTtml
+	opExec["tshift"] = execTshift
+}
+
+// genTtmlOps: documents assembled from timestamp-like fragments (well-formed, long hours, no fraction, minutes and
+// seconds above 59, runs of digits and colons that almost match) and plain text; shifts from 0 to years.
+func genTtmlOps(c *Ctx) {
+	r := c.Rng
+	frag := func() string {
+		switch r.Intn(12) {
+		case 0:
+			return fmt.Sprintf("%02d:%02d:%02d.%03d", r.Intn(100), r.Intn(60), r.Intn(60), r.Intn(1000))
+		case 1:
+			return fmt.Sprintf("%02d:%02d:%02d", r.Intn(30), r.Intn(60), r.Intn(60))
+		case 2:
+			return fmt.Sprintf("%d:%02d:%02d.%03d", 100+r.Intn(500000), r.Intn(100), r.Intn(100), r.Intn(1000))
+		case 3:
+			return fmt.Sprintf("%d:%02d:%02d", r.Intn(10), r.Intn(60), r.Intn(60)) // one hour digit: only a suffix can match
+		case 4:
+			return fmt.Sprintf("%02d:%02d:%d", r.Intn(100), r.Intn(60), r.Intn(1000)) // seconds of 1-3 digits
+		case 5:
+			return fmt.Sprintf("%02d:%02d:%02d.%d", r.Intn(100), r.Intn(60), r.Intn(60), r.Intn(100000)) // fraction of 1-5 digits
+		case 6:
+			return fmt.Sprintf("%02d:%02d:%02d:%02d.%03d", r.Intn(100), r.Intn(60), r.Intn(60), r.Intn(60), r.Intn(1000))
+		case 7:
+			return r.PickS("<p_begin=\"", "\"_end=\"", "\">", "</p>", "<tt>", "12", ":", ".", "1:2:3", "99:", ":07:", "00:00")
+		case 8:
+			return strconv.Itoa(r.Intn(1000000))
+		case 9:
+			return r.PickS("_", "a", "é", "xml:id=\"s1\"", "::", "..", "-")
+		default:
+			return fmt.Sprintf("begin=\"%02d:%02d:%02d.%03d\"_end=\"%02d:%02d:%02d.%03d\"", r.Intn(24), r.Intn(60), r.Intn(60), r.Intn(1000), r.Intn(24), r.Intn(60), r.Intn(60), r.Intn(1000))
+		}
+	}
+	for i := 0; i < c.N(300, 3000); i++ {
+		var sb strings.Builder
+		for k := r.Range(1, 8); k > 0; k-- {
+			sb.WriteString(frag())
+		}
+		sh := uint64(r.Pick(0, 1, 999, 1000, 8000, 59999, 3599999, 3600000, 86400000, 1790000000000, r.Intn(1<<40)))
+		c.Emit(fmt.Sprintf("ttml %s %d", sb.String(), sh), true)
+	}
+	for i := 0; i < c.N(200, 2000); i++ {
+		T := r.Pick(1000, 90000, 48000, 25, 30000, 12800, 10000000, 1+r.Intn(100000))
+		ts := uint64(r.Pick(0, 1, T/2, T, 8*T, 8008*T/1000, r.Intn(1<<30), r.Intn(1<<40)))
+		if r.Intn(3) == 0 {
+			ts = uint64(r.Intn(1<<20)) * uint64(T) / 1000 * uint64(r.Pick(1, 2, 8, 24)) // multiples of a loop
+		}
+		c.Emit(fmt.Sprintf("tshift %d %d", ts, T), true)
 	}
 }
